@@ -352,9 +352,20 @@ impl LyNative for TupleCollect {
 
     hooks.push_root(list);
 
-    while !is_falsey(iter.next(hooks)?) {
-      let current = iter.current();
-      list.push(current, &hooks.as_gc());
+    loop {
+      match iter.next(hooks) {
+        Call::Ok(next) => {
+          if is_falsey(next) {
+            break;
+          }
+        },
+        Call::Err(err) => {
+          hooks.pop_roots(1);
+          return Call::Err(err);
+        },
+      }
+
+      list.push(iter.current(), &hooks.as_gc());
     }
 
     hooks.pop_roots(1);
